@@ -42,9 +42,13 @@ func (deb *Deb) CheckDebsig(validKeys openpgp.EntityList, sigType string) (signe
 	if control == nil || data == nil {
 		return nil, fmt.Errorf("unable to find signed data")
 	}
-	binaryFlag.Data.Seek(0, 0)
-	control.Data.Seek(0, 0)
-	data.Data.Seek(0, 0)
-	signedData := io.MultiReader(binaryFlag.Data, control.Data, data.Data)
-	return openpgp.CheckDetachedSignature(validKeys, signedData, sig.Data)
+	/* Read the members through readers of our own: the loader's readers are
+	 * still in use by deb.Data (and by decoders that read ahead on their own
+	 * goroutines), so seeking and draining them here would race with, and
+	 * break, the payload stream the caller got from Load. */
+	fresh := func(e *ArEntry) io.Reader {
+		return io.NewSectionReader(e.Data, 0, e.Size)
+	}
+	signedData := io.MultiReader(fresh(binaryFlag), fresh(control), fresh(data))
+	return openpgp.CheckDetachedSignature(validKeys, signedData, fresh(sig))
 }
